@@ -427,8 +427,9 @@ func TestWire(t *testing.T) {
 	if kit.Race() {
 		n = kit.N(150, 600)
 	}
+	before := atomic.LoadInt64(&wireIncomplete)
 	propWire.Check(t, n)
-	if inc := atomic.LoadInt64(&wireIncomplete); inc*10 > int64(n) {
+	if inc := atomic.LoadInt64(&wireIncomplete) - before; inc*10 > int64(n) {
 		// no VIOLATION line: the driver reports infrastructure trouble (exit 2)
 		t.Fatalf("infrastructure: %d of %d through-proxy cases could not be judged (expired waits / no free ports); inconclusive, not a violation", inc, n)
 	}
